@@ -42,6 +42,9 @@ def place_droplets(rng, grid, k):
                 if 2 * R + 2 * h[a] >= L[a]:
                     ok = False
                 c[a] = rng.uniform(lo[a] - 0.5 * L[a], hi[a] + 0.5 * L[a]) if rng.random() < 0.3 else rng.uniform(lo[a], hi[a])
+                if rng.random() < 0.15:
+                    # any periodic image is a valid centre: between half a period and several periods outside the box
+                    c[a] += rng.choice([-3, -2, -1, 1, 2]) * L[a]
             else:
                 if 2 * (R + h[a]) >= L[a]:
                     ok = False
